@@ -12,6 +12,17 @@ func init() {
 	const expl = "C02-c/C03-b (FRESH, ownership of append targets): in package query every append (and in-place compaction) must write into a backing array the function owns — created there (nil, literal, make, T(nil) conversion, result of a function that returns owned memory) and only ever assigned owned values; the check is flow-insensitive per variable and follows pointer parameters to all call sites, range variables, struct copies and element-wise appends on slices of slices (where inserting a spread of existing elements duplicates headers — the inlineTagFilter defect repaired in 4517932). A shared array that is appended to makes two normal-form conjuncts overwrite each other."
 	register("C02", expl, func(p *Prog, r *Res) { ruleAppendOwned(p, r, "C02-c fresh-conditions", []string{"query"}, 60) })
 	register("C03", expl, func(p *Prog, r *Res) { ruleAppendOwned(p, r, "C03-b fresh-conditions", []string{"query"}, 60) })
+	register("C04", "C04-l = C03-b restricted to payload sequences: every append whose target is a []DataConditionElement (the steps of a `then` sequence) writes into a backing array the function owns. Conditions.then builds one follower per alternative of its right-hand side from the same left-hand prefix; appended in place, followers share one array and the last overwrites the others: `cdata:a then sdata:b then cdata:c then (cdata:d or sdata:d)` keeps only the last alternative.",
+		func(p *Prog, r *Res) {
+			ruleAppendOwnedFiltered(p, r, "C04-l sequence-elements-owned", []string{"query"}, 2, func(t types.Type) bool {
+				sl, ok := t.Underlying().(*types.Slice)
+				if !ok {
+					return false
+				}
+				nt := namedOf(sl.Elem())
+				return nt != nil && nt.Obj().Name() == "DataConditionElement"
+			})
+		})
 }
 
 func ruleAppendOwned(p *Prog, r *Res, rule string, pkgs []string, floor int) {
